@@ -5,7 +5,7 @@ from lib.common import Broken, Violation, verdict, save_replay
 
 PROPS = {
     "C28": {
-        "text": "ProxyMeta.tla is a function-level specification (DESIGN §3.3): TLC enumerates every cluster snapshot of up to 2 topics x up to 2 partitions (topic/partition error codes, leader epochs, topic ids, broker leaders) with every request by name, by topic id (incl. unknown ones, every order) and all-topics, plus FindCoordinator and the not-ready replies, plus a history dimension for by-id requests (the long-lived proxy's id->name cache was refreshed from the same metadata, or from metadata in which every topic still had an older id, i.e. topics were since deleted / re-created), and proves the C28 predicates for the specified reply over that whole domain. Every enumerated input is run through the real handleMetadata (loadMetadata + buildProxyMetadataResponse on a real InMemoryStore; for history inputs the real refreshMetadataCache runs against the earlier metadata, then the store is updated), handleFindCoordinator and buildNotReadyResponse; the produced bytes are decoded with franz-go kmsg and TLC evaluates the C28 predicates on the real reply (layer O) and checks real reply = Reply(input) (layer C).",
+        "text": "ProxyMeta.tla is a function-level specification (DESIGN §3.3): TLC enumerates every cluster snapshot of up to 2 topics x up to 2 partitions (topic/partition error codes, leader epochs, topic ids, broker leaders) with every request by name, by topic id (incl. unknown ones, every order) and all-topics, plus FindCoordinator and the not-ready replies, plus a history dimension for by-id requests (the long-lived proxy's id->name cache was refreshed from the same metadata, or from metadata in which every topic still had an older id, i.e. topics were since deleted / re-created), by-name requests repeating a name, and pairs of by-id requests overlapping inside the store lookup on one proxy (ReqStart / StoreReturn interleavings), and proves the C28 predicates for the specified reply over that whole domain. Every enumerated input is run through the real handleMetadata (loadMetadata + buildProxyMetadataResponse on a real InMemoryStore; for history inputs the real refreshMetadataCache runs against the earlier metadata, then the store is updated; overlapping pairs run in a testing/synctest bubble against a gating store wrapper, synctest.Wait() being the barrier between schedule steps), handleFindCoordinator and buildNotReadyResponse; the produced bytes are decoded with franz-go kmsg and TLC evaluates the C28 predicates on the real reply (layer O) and checks real reply = Reply(input) (layer C).",
         "note": "Trusted: TLC, franz-go kmsg as the reference codec, the harness projection of the decoded reply into records. Snapshots are the well-formed ones the metadata stores can hold (a topic with a topic-level error carries no partitions; topic ids non-zero). Metadata v12 / FindCoordinator v3 only (the versions that carry topic ids and leader epochs / the only advertised one). For a requested name / id the cluster does not have, the reply may carry an error entry without partitions or nothing (its presence and code are conformance-level, not part of C28). Exhaustive for the stated bounds only.",
         "technique": "TLA+ function-level specification (ProxyMeta.tla) + TLC exhaustive enumeration of the input domain + every input run through the real proxy functions + TLC evaluation of the property predicates and of spec equality on the decoded real replies",
         "level": "model_checking",
@@ -13,7 +13,7 @@ PROPS = {
 }
 DEVIATIONS = {
     "KeepLeader": "C28_OnlyProxyLeaders", "KeepBrokers": "C28_OnlyProxyBrokers",
-    "IdFilterAll": "C28_TopologyKept", "DropErrTopics": "C28_TopologyKept", "StaleIdCache": "C28_TopologyKept",
+    "IdFilterAll": "C28_TopologyKept", "DropErrTopics": "C28_TopologyKept", "StaleIdCache": "C28_TopologyKept", "DupNameLosesSlot": "C28_TopologyKept", "FlightKeyIgnoresIds": "C28_TopologyKept",
 }
 OVERLAY = {"cmd/proxy/zz_verif_proxymeta_test.go": "proxymeta_verif_test.go"}
 INVS = ["C28_OnlyProxyBrokers", "C28_OnlyProxyLeaders", "C28_OnlyProxyCoordinator", "C28_TopologyKept"]
@@ -52,6 +52,11 @@ def key(i):
 def klass(i):
     """Input class: kind:mode, plus the history of the proxy's caches (refreshed from unchanged / since-changed metadata)."""
     k = i["kind"] + ":" + i["mode"]
+    if i["mode"] == "names" and len(set(i["names"])) < len(i["names"]):
+        k += ":repeated-name"
+    if i.get("conc"):
+        tk = i["conc"]["taken"]
+        k += ":overlapping-requests" if tk[:2] == ["S1", "S2"] else ":back-to-back-requests"
     if i.get("prev"):
         cur = {(t["name"], t["id"]) for t in i["snap"]}
         k += ":warm-cache-unchanged" if {(t["name"], t["id"]) for t in i["prev"]} == cur else ":after-metadata-change"
@@ -85,8 +90,12 @@ def check(ctx, prop):
             uniq[key(h[0])] = h[0]
     inputs = [uniq[k] for k in sorted(uniq)]
     rows = harness(ctx, inputs, "main")
-    if len(rows) != len(inputs) or any(key(r["in"]) != key(i) for r, i in zip(rows, inputs)):
-        raise Broken("harness recorded %d calls for %d inputs" % (len(rows), len(inputs)))
+    # a pair input (two overlapping requests on one proxy) yields one line per request, every other input one line
+    expect = [j for j, i in enumerate(inputs) for _ in range(2 if i["kind"] == "metadata2" else 1)]
+    if [r["n"] for r in rows] != expect or any(key(r["in"]) != key(inputs[r["n"]]) for r in rows if "conc" not in r["in"]):
+        raise Broken("harness recorded %d calls, expected %d for %d inputs" % (len(rows), len(expect), len(inputs)))
+    if any(r["in"]["ids"] != inputs[r["n"]]["reqs"][r["in"]["conc"]["req"] - 1] for r in rows if "conc" in r["in"]):
+        raise Broken("harness mislabelled the requests of a pair")
     (consumed, viol, _), (reached, total, _), st = par([
         lambda: layers.observe(ctx, DIR, "Obs_ProxyMeta.tla", "Obs_ProxyMeta.cfg", rows, timeout=1500),
         lambda: layers.conform(ctx, DIR, "Trace_ProxyMeta.tla", "Trace_ProxyMeta.cfg", rows, timeout=1500),
@@ -99,9 +108,9 @@ def check(ctx, prop):
             continue
         seen.add(sig)
         n = sum(1 for l2, i2 in viol if i2 == inv and klass(rows[l2 - 1]["in"]) == klass(r["in"]))
-        path = save_replay(prop, "input-%s.json" % re.sub(r"\W", "_", sig), {"schedule": r["in"], "reply": r["reply"]})
+        path = save_replay(prop, "input-%s.json" % re.sub(r"\W", "_", sig), {"schedule": inputs[r["n"]], "line": r["in"], "reply": r["reply"]})
         violations.append(Violation(prop, sig, "%s false on the real reply for %d input(s); first: input %s -> reply %s [replay %s]" % (
-            inv, n, json.dumps(r["in"], sort_keys=True), json.dumps(r["reply"], sort_keys=True), path), {"schedule": r["in"], "reply": r["reply"]}))
+            inv, n, json.dumps(r["in"], sort_keys=True), json.dumps(r["reply"], sort_keys=True), path), {"schedule": inputs[r["n"]], "line": r["in"], "reply": r["reply"]}))
     if isinstance(st, Broken):
         if not violations:
             raise st
@@ -113,19 +122,19 @@ def check(ctx, prop):
         level = "exploration"
         ctx.log("DRIFT: real reply differs from Reply(input) although C28 held: " + json.dumps(conf["first_rejection"]))
     kinds = {}
-    for i in inputs:
+    for i in [r["in"] for r in rows]:
         k = klass(i)
         kinds[k] = kinds.get(k, 0) + 1
-    for k in ("metadata:all", "metadata:names", "metadata:ids", "metadata:ids:warm-cache-unchanged", "metadata:ids:after-metadata-change",
+    for k in ("metadata:all", "metadata:names", "metadata:ids", "metadata:ids:warm-cache-unchanged", "metadata:ids:after-metadata-change", "metadata:names:repeated-name", "metadata:ids:overlapping-requests", "metadata:ids:back-to-back-requests",
               "nr_metadata:names", "nr_metadata:ids", "coordinator:all", "nr_coordinator:all"):
         if not kinds.get(k):
             raise Broken("vacuous run: no input of kind %s" % k)
-    nontrivial = sum(1 for i in inputs if i["kind"] == "metadata" and any(t["parts"] for t in i["snap"]) and (len(i["snap"]) >= 2 or i["mode"] != "all"))
+    nontrivial = sum(1 for i in [r["in"] for r in rows] if i["kind"] == "metadata" and any(t["parts"] for t in i["snap"]) and (len(i["snap"]) >= 2 or i["mode"] != "all"))
     cov = {
         "states": mc.distinct, "transitions": mc.generated, "depth": mc.depth, "exhaustive": True,
         "model_config": "MC_ProxyMeta_%s.cfg" % ctx.tier,
         "traces_validated_against_impl": len(rows), "trace_events": len(rows),
-        "evaluations": len(inputs), "distinct_nontrivial": nontrivial, "inputs_by_kind": kinds,
+        "evaluations": len(rows), "inputs": len(inputs), "distinct_nontrivial": nontrivial, "inputs_by_kind": kinds,
         "rule": "inputs = every 'done' state of the exhaustive TLC run (whole bounded domain), each run through the real function; non-trivial = metadata request over a snapshot with at least one partition and (two topics or a by-name/by-id selection)",
         "deviation_schedules": sorted(DEVIATIONS), "deviation_inputs": dev_inputs,
         "conformance": ("drift" if drift else "accepted"), "conformance_detail": conf,
